@@ -14,6 +14,7 @@ mod fmtmc;
 mod laymc;
 mod diagmc;
 mod workers;
+mod memcap;
 mod run;
 mod hostobj;
 mod kast;
@@ -31,6 +32,9 @@ mod fam_meta;
 
 use common::Args;
 
+#[global_allocator]
+static GLOBAL: memcap::CapAlloc = memcap::CapAlloc;
+
 fn main() {
     let _ = common::PROCESS_START.set(std::time::Instant::now());
     let mut argv: Vec<String> = std::env::args().skip(1).collect();
@@ -47,8 +51,8 @@ fn main() {
             #[cfg(feature = "arc")]
             "sched-explore" => workers::worker_loop(&mut |req| schedmc::arc_side::worker_explore(req)),
             #[cfg(feature = "arc")]
-            "arc-run" => workers::worker_loop(&mut |req| schedmc::arc_side::worker_arc_run(req)),
-            "rc-run" => workers::worker_loop(&mut |req| schedmc::worker_rc_run(req)),
+            "arc-run" => schedmc::differential_worker(schedmc::arc_side::worker_arc_run),
+            "rc-run" => schedmc::differential_worker(schedmc::worker_rc_run),
             "tmo-run" => workers::worker_loop(&mut |req| tmomc::worker_run(req)),
             "lib-call" => workers::worker_loop(&mut |req| libmc::worker_call(req)),
             _ => 2,
